@@ -687,6 +687,195 @@ fn generate2(rng: &mut Rng, class: &'static str, n: usize) -> Option<(Sys, f64)>
     None
 }
 
+
+// ------------------------------------------------------------------------------------------------
+// Third family (stream 3): the small orders (1..=4, the ones for which closed-form solution formulas
+// exist) with matrices that are ill-conditioned BY CANCELLATION (nearly dependent rows / columns,
+// singular values graded through random rotations — not by row or column scaling) and right-hand
+// sides that are consistent with a moderate solution, B = A·X0 with |X0| = O(1). This is the corner
+// of the quantifier in which backward stability is a stronger demand than forward accuracy: with a
+// random B the solution is amplified by cond(A) and ‖A‖‖X‖ absorbs any error of the order
+// eps·cond(A)·‖B‖, with B = A·X0 it does not. Judged with the same column-wise backward-error bound
+// C·n·eps and the same agreement relations as every other class, through all six entry points.
+
+const SMALL_KINDS: [&str; 5] = ["svd-graded", "svd-graded-spd", "nearly-parallel-rows", "nearly-parallel-columns", "gram-nearly-parallel"];
+const SMALL_NMAX: usize = 4;
+/// regime labels `small-illcond:<kind>:n=<order>` (static: one label per kind and order)
+const SMALL_REGIMES: [[&str; SMALL_NMAX]; 5] = [
+    ["small-illcond:svd-graded:n=1", "small-illcond:svd-graded:n=2", "small-illcond:svd-graded:n=3", "small-illcond:svd-graded:n=4"],
+    ["small-illcond:svd-graded-spd:n=1", "small-illcond:svd-graded-spd:n=2", "small-illcond:svd-graded-spd:n=3", "small-illcond:svd-graded-spd:n=4"],
+    ["small-illcond:nearly-parallel-rows:n=1", "small-illcond:nearly-parallel-rows:n=2", "small-illcond:nearly-parallel-rows:n=3", "small-illcond:nearly-parallel-rows:n=4"],
+    ["small-illcond:nearly-parallel-columns:n=1", "small-illcond:nearly-parallel-columns:n=2", "small-illcond:nearly-parallel-columns:n=3", "small-illcond:nearly-parallel-columns:n=4"],
+    ["small-illcond:gram-nearly-parallel:n=1", "small-illcond:gram-nearly-parallel:n=2", "small-illcond:gram-nearly-parallel:n=3", "small-illcond:gram-nearly-parallel:n=4"],
+];
+
+/// random orthogonal matrix: product of plane rotations over every pair of axes (random angles) and
+/// random column signs; orthogonal up to rounding, which is all the construction needs
+fn gen_orthogonal(rng: &mut Rng, n: usize) -> Vec<f64> {
+    let mut q = vec![0.0; n * n];
+    for i in 0..n {
+        q[i * n + i] = if rng.bool() { 1.0 } else { -1.0 };
+    }
+    for p in 0..n {
+        for r in p + 1..n {
+            let th = rng.range(0.0, 2.0 * std::f64::consts::PI);
+            let (c, s) = (th.cos(), th.sin());
+            for row in 0..n {
+                let (x, y) = (q[row * n + p], q[row * n + r]);
+                q[row * n + p] = c * x - s * y;
+                q[row * n + r] = s * x + c * y;
+            }
+        }
+    }
+    q
+}
+
+/// singular values 1 = s_1 >= ... >= s_n = 1/kappa: geometric, one small, one large, or random in between
+fn graded_sigma(rng: &mut Rng, n: usize, kappa: f64) -> Vec<f64> {
+    if n == 1 {
+        return vec![1.0];
+    }
+    let mode = rng.usize(0, 3);
+    let mut sg: Vec<f64> = (0..n)
+        .map(|i| match (i, mode) {
+            (0, _) => 1.0,
+            (i, _) if i == n - 1 => 1.0 / kappa,
+            (i, 0) => kappa.powf(-(i as f64) / (n - 1) as f64),
+            (_, 1) => 1.0,
+            (_, 2) => 1.0 / kappa,
+            _ => kappa.powf(-rng.f64()),
+        })
+        .collect();
+    sg.sort_by(|a, b| b.partial_cmp(a).unwrap());
+    sg
+}
+
+fn mat_mul_small(a: &[f64], b: &[f64], m: usize, l: usize, n: usize) -> Vec<f64> {
+    let mut c = vec![0.0; m * n];
+    for i in 0..m {
+        for j in 0..n {
+            let mut s = 0.0;
+            for t in 0..l {
+                s += a[i * l + t] * b[t * n + j];
+            }
+            c[i * n + j] = s;
+        }
+    }
+    c
+}
+
+/// `w` rows nearly parallel: row_i = c_i·r + delta·w_i for i in a random subset of at least two rows
+/// (all rows w.p. 1/2), the remaining rows generic
+fn gen_nearly_parallel(rng: &mut Rng, n: usize, delta: f64) -> Vec<f64> {
+    let r: Vec<f64> = (0..n).map(|_| rng.range(0.25, 1.0) * if rng.bool() { 1.0 } else { -1.0 }).collect();
+    let mut a: Vec<f64> = (0..n * n).map(|_| rng.range(-1.0, 1.0)).collect();
+    let all = rng.bool();
+    let order = rng.perm(n);
+    let npar = if all || n <= 2 { n } else { rng.usize(2, n) };
+    for &i in order.iter().take(npar) {
+        let c = rng.range(0.5, 2.0) * if rng.bool() { 1.0 } else { -1.0 };
+        for j in 0..n {
+            a[i * n + j] = c * r[j] + delta * rng.range(-1.0, 1.0);
+        }
+    }
+    a
+}
+
+fn transpose_small(a: &[f64], n: usize) -> Vec<f64> {
+    let mut t = vec![0.0; n * n];
+    for i in 0..n {
+        for j in 0..n {
+            t[j * n + i] = a[i * n + j];
+        }
+    }
+    t
+}
+
+fn generate_small(rng: &mut Rng, kind: usize, n: usize) -> Option<(Sys, f64)> {
+    let k = rng.usize(1, 6);
+    for _attempt in 0..50 {
+        // target 2-norm condition number: log-uniform over 1..10^9.3 (cond_inf stays below 1e10)
+        let lk = if n == 1 { 0.0 } else { rng.range(0.0, 9.3) };
+        let kappa2 = 10f64.powf(lk);
+        let scale = rng.log_range(1e-3, 1e3);
+        let (mut a, how): (Vec<f64>, String) = match kind {
+            0 | 1 => {
+                let u = gen_orthogonal(rng, n);
+                let v = if kind == 1 { u.clone() } else { gen_orthogonal(rng, n) };
+                let sg = graded_sigma(rng, n, kappa2);
+                // U·diag(s)·V^T
+                let mut us = u.clone();
+                for i in 0..n {
+                    for j in 0..n {
+                        us[i * n + j] *= sg[j];
+                    }
+                }
+                let mut a = mat_mul_small(&us, &transpose_small(&v, n), n, n, n);
+                if kind == 1 {
+                    // exactly symmetric (the rounding of U·S·U^T is not)
+                    for i in 0..n {
+                        for j in i + 1..n {
+                            a[j * n + i] = a[i * n + j];
+                        }
+                    }
+                }
+                (a, format!("U·diag(s)·{}, random rotations, singular values 1..1e-{:.2} ({:?})", if kind == 1 { "U^T (symmetric positive definite)" } else { "V^T" }, lk, sg))
+            }
+            2 | 3 => {
+                let delta = 1.0 / kappa2;
+                let a = gen_nearly_parallel(rng, n, delta);
+                if kind == 2 {
+                    (a, format!("rows c_i·r + {:e}·w_i (nearly parallel) for two or more rows, other rows uniform(-1,1)", delta))
+                } else {
+                    (transpose_small(&a, n), format!("columns c_j·r + {:e}·w_j (nearly parallel) for two or more columns, other columns uniform(-1,1)", delta))
+                }
+            }
+            _ => {
+                // normal equations G^T G of a tall G whose columns are nearly parallel (un-centred regressors)
+                let m = n + rng.usize(1, 6);
+                let delta = 1.0 / kappa2.sqrt();
+                let g0: Vec<f64> = (0..m).map(|_| rng.range(0.5, 1.5)).collect();
+                let cs: Vec<f64> = (0..n).map(|_| rng.range(0.5, 2.0)).collect();
+                let g: Vec<f64> = (0..m * n).map(|t| cs[t % n] * g0[t / n] + delta * rng.range(-1.0, 1.0)).collect();
+                let mut a = mat_mul_small(&transpose_rect(&g, m, n), &g, n, m, n);
+                for i in 0..n {
+                    for j in i + 1..n {
+                        a[j * n + i] = a[i * n + j];
+                    }
+                }
+                (a, format!("G^T G, G {}x{} with columns c_j·g + {:e}·w_j (nearly parallel)", m, n, delta))
+            }
+        };
+        a.iter_mut().for_each(|v| *v *= scale);
+        let kappa = match cond_ok(&a, n, 1e10) {
+            Some(c) => c,
+            None => continue,
+        };
+        if matches!(kind, 1 | 4) && !(is_symmetric_exact(&a, n) && linref::cholesky(&a, n).is_some()) {
+            continue;
+        }
+        // consistent right-hand sides: B = A·X0, |X0| = O(1) per column (columns differ in scale and content)
+        let x0 = rhs(rng, n, k);
+        let b = mat_mul_small(&a, &x0, n, n, k);
+        if !all_finite(&b) {
+            continue;
+        }
+        let how = format!("{} x {:e}; B = fl(A·X0) with X0 of moderate size", how, scale);
+        return Some((Sys { regime: SMALL_REGIMES[kind][n - 1], n, k, a, b, xstar: None, how }, kappa));
+    }
+    None
+}
+
+fn transpose_rect(a: &[f64], r: usize, c: usize) -> Vec<f64> {
+    let mut t = vec![0.0; r * c];
+    for i in 0..r {
+        for j in 0..c {
+            t[j * r + i] = a[i * c + j];
+        }
+    }
+    t
+}
+
 /// κ∞ from the double-double inverse; None if singular / too ill-conditioned for the class
 fn cond_ok(a: &[f64], n: usize, limit: f64) -> Option<f64> {
     let c = cond_inf(a, n);
@@ -832,7 +1021,7 @@ impl Ctx<'_> {
     }
 
     /// A·Y = I column by column
-    fn check_inverse(&self, rep: &mut Report, e: &Entry, y: &[f64], routing: &str) {
+    fn check_inverse(&self, rep: &mut Report, e: &Entry, y: &[f64], routing: &str) -> bool {
         let entry = e.name;
         let s = self.s;
         let n = s.n;
@@ -858,6 +1047,26 @@ impl Ctx<'_> {
         rep.check(e.residual, s.regime, ok, || {
             self.detail(entry, Some(wj), routing, json!({"inverse": jf(y), "finite": all_finite(y), "backward_error_worst_column": jnum(worst), "ratio_to_n_eps": jnum(worst / (n as f64 * EPS))}))
         });
+        ok
+    }
+
+    /// A computed inverse Y whose columns meet the backward-error bound satisfies Y = A⁻¹(I + R) with
+    /// ‖R‖∞ ≤ n·tol·(‖A‖‖Y‖ + 1), so Y·b differs from the true solution by at most
+    /// n·tol·(κ‖Y‖ + ‖A⁻¹‖)·‖b‖ (+ n·eps·‖Y‖‖b‖ for the product); a solution x that meets the bound
+    /// itself differs by at most 2·tol·κ·‖x‖. Compared only when both met their own bound.
+    fn check_inverse_times_b(&self, rep: &mut Report, assertion: &str, note: &str, j: usize, y: &[f64], x: &[f64], what: &str) {
+        let s = self.s;
+        let n = s.n;
+        let bj = col(&s.b, n, s.k, j);
+        let yb: Vec<f64> = (0..n).map(|i| (0..n).map(|t| y[i * n + t] * bj[t]).sum()).collect();
+        let d = diff_inf(&yb, x);
+        let ynorm = linref::inf_norm(y, n, n);
+        let bound = 2.0 * self.tol * self.kappa * ((n as f64 + 1.0) * ynorm * max_abs(&bj) + 2.0 * max_abs(x));
+        let ok = d <= bound;
+        if ok && bound > 0.0 {
+            rep.note_max(note, d / bound);
+        }
+        rep.check(assertion, s.regime, ok, || self.detail(what, Some(j), "", json!({"inverse_times_b": jf(&yb), "x": jf(x), "difference": jnum(d), "bound": jnum(bound)})));
     }
 }
 
@@ -939,8 +1148,12 @@ fn one_system(rep: &mut Report, s: &Sys, kappa: f64) {
     let routing_inv = routed(before, Site::SolveSysChol, Site::SolveSysLu);
     no_panic(rep, &INVERT_MATRIX, &r.as_ref().map(|_| ()).map_err(|e| e.clone()), routing_inv);
     if let Ok(y) = r {
-        if shape(rep, &INVERT_MATRIX, y.len() == n * n, json!({"len": y.len()})) {
-            cx.check_inverse(rep, &INVERT_MATRIX, &y, routing_inv);
+        if shape(rep, &INVERT_MATRIX, y.len() == n * n, json!({"len": y.len()})) && cx.check_inverse(rep, &INVERT_MATRIX, &y, routing_inv) {
+            for j in 0..k {
+                if let Some(xs) = &single[j] {
+                    cx.check_inverse_times_b(rep, "C01.invert_matrix.times_b_vs_solve", "worst_ratio.invert_matrix.times_b_vs_solve", j, &y, xs, "invert_matrix(A)·b vs solve(A,b)");
+                }
+            }
         }
     }
 
@@ -985,8 +1198,12 @@ fn one_system(rep: &mut Report, s: &Sys, kappa: f64) {
     let r = guard(|| m.inv());
     no_panic(rep, &M_INV, &r.as_ref().map(|_| ()).map_err(|e| e.clone()), "lu");
     if let Ok(y) = r {
-        if shape(rep, &M_INV, y.nrows == n && y.ncols == n && y.data.len() == n * n, json!({"shape": [y.nrows, y.ncols], "len": y.data.len()})) {
-            cx.check_inverse(rep, &M_INV, &y.data, "lu");
+        if shape(rep, &M_INV, y.nrows == n && y.ncols == n && y.data.len() == n * n, json!({"shape": [y.nrows, y.ncols], "len": y.data.len()})) && cx.check_inverse(rep, &M_INV, &y.data, "lu") {
+            for j in 0..k {
+                if let Some(xs) = &single_m[j] {
+                    cx.check_inverse_times_b(rep, "C01.Matrix.inv.times_b_vs_solve", "worst_ratio.Matrix.inv.times_b_vs_solve", j, &y.data, xs, "Matrix::inv(A)·b vs Matrix::solve(&Vector)");
+                }
+            }
         }
     }
 
@@ -1075,10 +1292,12 @@ fn one_system(rep: &mut Report, s: &Sys, kappa: f64) {
 }
 
 pub fn run(cfg: &Cfg, rep: &mut Report) {
-    rep.rule = "stream 1, case i: class = CLASSES[i mod 11], order n = 1 + (i div 11) mod Nmax (every class meets every order); stream 2 likewise over the 12 classes of CLASSES2 (negated twins of the symmetric / positive-diagonal classes, symmetric matrices with mixed-sign or zero diagonal, tri-/penta-/cyclic bi-diagonal and Hessenberg matrices with tiny or zero diagonal entries, dominant band matrices); 1..6 right-hand-side columns at random; each system goes through all six entry points, and solve(-A,-b) is compared with solve(A,b). non-trivial = order >= 2 and A not diagonal; distinct by hash of (class, n, bits of A)".into();
+    rep.rule = "stream 1, case i: class = CLASSES[i mod 11], order n = 1 + (i div 11) mod Nmax (every class meets every order); stream 2 likewise over the 12 classes of CLASSES2 (negated twins of the symmetric / positive-diagonal classes, symmetric matrices with mixed-sign or zero diagonal, tri-/penta-/cyclic bi-diagonal and Hessenberg matrices with tiny or zero diagonal entries, dominant band matrices); 1..6 right-hand-side columns at random; stream 3: orders 1..4 x 5 kinds of matrices that are ill-conditioned by cancellation (U·diag(s)·V^T and its symmetric positive definite twin U·diag(s)·U^T with random rotations and graded singular values, nearly parallel rows, nearly parallel columns, Gram matrices of nearly parallel columns; cond up to 1e10) with consistent right-hand sides B = A·X0, |X0| = O(1); each system goes through all six entry points, solve(-A,-b) is compared with solve(A,b) and inverse·b with the solver's answer. non-trivial = order >= 2 and A not diagonal; distinct by hash of (class, n, bits of A)".into();
     rep.assume("A is finite, of order 1..32, nonsingular with cond_inf below 1e10 (1e14 for the graded / triangular classes) as measured by a double-double inverse; singular and non-finite inputs are outside the quantifier");
     rep.assume(&format!("backward-error bound C·n·eps with C = {} and eps = 2^-52, per column: |A x_j - b_j|_inf <= C n eps (|A|_inf |x_j|_inf + |b_j|_inf); forward comparisons use 2·C·n·eps·cond_inf", C));
     rep.assume("weak-diagonal band classes: off-diagonal band entries ±(0.5,2), diagonal entries zero / tiny (1e-14..1e-3) / ±(0.5,2) in per-matrix proportions, kept only if cond_inf <= 1e10 (the matrices are well conditioned, only their leading pivots are not usable without row exchanges)");
+    rep.assume("small-illcond classes: order 1..4; conditioning comes from cancellation (rotated graded singular values, nearly dependent rows/columns), not from row/column scaling; right-hand sides are fl(A·X0) with X0 entries ±(0.25,1.25)·4^j, so the solution stays moderate and C·n·eps·(|A||x|+|b|) is a bound on the residual that is NOT inflated by cond(A); order 1 only for the two svd kinds (the other kinds need two rows)");
+    rep.assume("inverse·b vs solve: compared only when both met their own backward-error bound; bound 2·C·n·eps·cond_inf·((n+1)·|Y|_inf·|b|_inf + 2·|x|_inf) (first-order perturbation theory of a column-wise backward-stable inverse)");
     rep.assume("sym-indef-posdiag needs order >= 2 (order 1 is replaced by 2); tiny-nonsym-posdiag = every |a_ij - a_ji| <= 2^-52 without exact symmetry, positive diagonal (order >= 2)");
     if cfg.miri() {
         rep.assume("Miri layer: 24 systems of order 2, 5, 12; residual sums in plain f64 instead of double-double (adds < 1 to ratios compared with C = 16), cond_inf from an f64 Gauss-Jordan inverse");
@@ -1122,6 +1341,29 @@ pub fn run(cfg: &Cfg, rep: &mut Report) {
             None => rep.seen(&format!("generator-gave-up:{}", class), 1),
         }
     });
+    // third family: small orders, ill-conditioned by cancellation, consistent right-hand sides
+    let small: Vec<(usize, usize)> = (0..SMALL_KINDS.len()).flat_map(|kd| (1..=SMALL_NMAX).map(move |n| (kd, n))).filter(|&(kd, n)| n >= 2 || kd <= 1).collect();
+    let small_m: Vec<(usize, usize)> = vec![(0, 2), (2, 3), (4, 2)];
+    let small_used = if cfg.miri() { &small_m } else { &small };
+    let ncases3 = if cfg.miri() { small_m.len() } else { small.len() * cfg.pick(40, 600, 2) };
+    par_cases(cfg, rep, 3, ncases3, |i, rng: &mut Rng, rep| {
+        let (kd, n) = small_used[i % small_used.len()];
+        match generate_small(rng, kd, n) {
+            Some((s, kappa)) => {
+                rep.seen(if kappa >= 1e6 { "small-illcond:cond>=1e6" } else if kappa >= 1e3 { "small-illcond:cond=1e3..1e6" } else { "small-illcond:cond<1e3" }, 1);
+                one_system(rep, &s, kappa)
+            }
+            None => rep.seen(&format!("generator-gave-up:small-illcond:{}", SMALL_KINDS[kd]), 1),
+        }
+    });
+    for &(kd, n) in small_used.iter() {
+        rep.require(SMALL_REGIMES[kd][n - 1], 1);
+    }
+    if !cfg.miri() {
+        for r in ["small-illcond:cond>=1e6", "small-illcond:cond=1e3..1e6", "small-illcond:cond<1e3"] {
+            rep.require(r, 1);
+        }
+    }
     for c in CLASSES {
         rep.require(c, 1);
     }
